@@ -3,6 +3,14 @@ from common import *
 OBLIGATIONS = [
     ob('C10.status', 'verif_frag::status::c10_status', 'for all i32 error counts: exit status is 0 iff no error else 1; a parse error maps to 2', units=['status']),
 ]
+PARSER_FNS = ['next_lexem', 'drop_lexem', 'there_are_remaining_lexems', 'parse_where', 'parse_expr', 'parse_and',
+              'parse_cond', 'parse_add_sub', 'parse_mul_div', 'parse_paren', 'parse_func_scalar', 'parse_function',
+              'parse_group_by', 'parse_order_by', 'parse_limit', 'parse_output_format', 'negate_expr_op']
+for f in PARSER_FNS:
+    OBLIGATIONS.append(dict(id=f'C10.parser.nopanic.{f}', engine='V', verus_fn='Parser::' + f, complete=True, bound=None, units=[],
+                            desc=f'Parser::{f} (real body, extracted verbatim): no unwrap on None/Err, no index out of range, no usize '
+                                 f'underflow/overflow, for every token vector and cursor; callees by contract (cursor frame, Ok => Some)',
+                            harness='verus:Parser::' + f, tier='quick'))
 CANARIES = []
-ASSUMPTIONS = []
-NOT_COVERED = []
+ASSUMPTIONS = ['termination is not proved (exec_allows_no_decreases_clause)']
+NOT_COVERED = ['parse_fields, parse_roots, parse_root_options, Parser::parse, the lexer (not under contract)', 'termination / no hang', 'evaluator-side literal errors other than booleans (regex, dates)', 'process-level behaviour']
